@@ -59,6 +59,8 @@ class MemStateBackend(BaseStateBackend[Params, Result]):
         """Clears all stored data"""
         self._cache.clear()
         self._parent_to_children.clear()
+        self._runner_contexts.clear()
+        self._workflow_data.clear()
         self._history.clear()
         self._results.clear()
         self._exceptions.clear()
